@@ -234,6 +234,10 @@ package standard
 //@   loop 1
 //@     invariant forall e phase0.Epoch :: visited(e) && e + 2 <= epoch ==> !in(s.subscriptionInfos, e)
 //@   at call Unlock#1: assert forall e phase0.Epoch {in(s.subscriptionInfos, e)} :: in(s.subscriptionInfos, e) ==> e + 2 > epoch
+//@   // C14: and only those - the information of the previous, the current and later epochs stays (it is what the
+//@   // aggregation jobs of these epochs are set up from); in mathematical arithmetic: no wrap-around in the first epochs
+//@   // (stated for epochs below 2^63: for keys within two of 2^64 the comparison in the code itself wraps)
+//@   at call delete: assert arg1 <= 9223372036854775807 ==> arg1 + 2 <= epoch
 //@
 //@ // the wall-clock epoch is (now - genesis) / (slot duration * slots per epoch): far below 2^62 for any clock
 //@ // nowEpoch(): the wall-clock epoch while a reorg handler runs (the reads of the clock within one handler are
